@@ -71,20 +71,25 @@ namespace Dune
                   pybind11::format_descriptor< T >::value, 1, { size }, { sizeof( T ) } )
                 ),
           dataPtr_( static_cast< value_type * >( array_.request(true).ptr ) ),
-          size_(size)
+          size_(size),
+          stride_( sizeof( T ) )
       {}
 
       NumPyVector ( pybind11::buffer buf )
         : array_( buf ),
           dataPtr_( nullptr ),
-          size_( 0 )
+          size_( 0 ),
+          stride_( sizeof( T ) )
       {
         pybind11::buffer_info info = buf.request();
         if (info.ndim != 1)
           DUNE_THROW( InvalidStateException, "NumPyVector can only be created from one-dimensional array" );
         size_ = info.shape[0];
 
-        dataPtr_ = static_cast< value_type * >( array_.request(true).ptr );
+        // the wrapped array need not be contiguous (e.g. a slice a[::2] or a[::-1]): keep its stride
+        pybind11::buffer_info arrayInfo = array_.request(true);
+        dataPtr_ = static_cast< value_type * >( arrayInfo.ptr );
+        stride_ = arrayInfo.strides[0];
       }
 
       NumPyVector ( const This &other ) = delete;
@@ -99,19 +104,19 @@ namespace Dune
 
       const value_type &operator[] ( size_type index ) const
       {
-        return data()[ index ];
+        return entry( index );
       }
       value_type &operator[] ( size_type index )
       {
-        return data()[ index ];
+        return entry( index );
       }
       value_type &vec_access ( size_type index )
       {
-        return data()[ index ];
+        return entry( index );
       }
       const value_type &vec_access ( size_type index ) const
       {
-        return data()[ index ];
+        return entry( index );
       }
 
       inline const value_type *data () const
@@ -143,9 +148,20 @@ namespace Dune
       }
 
     protected:
+      // entry `index` of the wrapped array: stride_ is the distance between consecutive entries in bytes
+      const value_type &entry ( size_type index ) const
+      {
+        return *reinterpret_cast< const value_type * >( reinterpret_cast< const char * >( data() ) + static_cast< pybind11::ssize_t >( index ) * stride_ );
+      }
+      value_type &entry ( size_type index )
+      {
+        return *reinterpret_cast< value_type * >( reinterpret_cast< char * >( data() ) + static_cast< pybind11::ssize_t >( index ) * stride_ );
+      }
+
       pybind11::array_t< T > array_;
       value_type* dataPtr_;
       size_type size_;
+      pybind11::ssize_t stride_;
     };
 
   } // namespace Python
